@@ -114,3 +114,42 @@ Definition paa_obs (now : Z) (idp_sub : option bytes) (tok : jws) : bytes :=
 
 Definition usertok_obs (ek sk : bytes) (now : Z) (tok : jwe) : bytes :=
   match user_info ek sk now tok with Some sub => str "ok:" ++ hexs sub | None => str "rej" end.
+
+(** [handshake] (C17), [tunnel] (C07, C08 at the gateway) and [config] (C18) cases. *)
+From RDPGW Require Import Model.Config.
+
+Definition no_redir : redirect_flags :=
+  {| rf_clipboard := false; rf_port := false; rf_drive := false; rf_printer := false;
+     rf_pnp := false; rf_disable_all := false; rf_enable_all := false |}.
+
+Definition handshake_obs (sc tok : bool) (body : bytes) : bytes :=
+  let c := {| c_token_auth := tok; c_smartcard := sc; c_cookie_cb := false; c_name_cb := false; c_host_cb := false;
+              c_redir := no_redir; c_idle := 0%Z |} in
+  let a := {| a_cookie := false; a_name := false; a_host := false; a_dial := false |} in
+  let items := [RData (create_packet PKT_TYPE_HANDSHAKE_REQUEST body) a; RErr] in
+  obs_of_events (run c items) (N.of_nat (consumed c items)).
+
+Definition dash (l : list bytes) : bytes := match l with [] => [x2d] | _ => join [x2c] l end.
+
+(** [user_hex]: the user name as the case line writes it (already hexadecimal). *)
+Definition tunnel_obs (c : cfg) (user_hex own : bytes) (items : list read_item) : bytes :=
+  let pol (h : bytes) := bytes_eqb h own in
+  let items' := resolve_policy_dials pol [own] c tstate0 (items ++ [RErr]) in
+  let evs := run c items' in
+  let rs := List.concat (map (fun e => match e with Resp ty st _ => [dec ty ++ colon ++ dec st] | _ => [] end) evs) in
+  let cs := List.concat (map (fun e => match e with
+              | AskCookie ck ok => [str "AC:" ++ hexs ck ++ colon ++ b01 ok]
+              | AskHost h ok => [str "AH:" ++ hexs h ++ colon ++ b01 ok ++ str ":u=" ++ user_hex]
+              | _ => [] end) evs) in
+  let dials := N.of_nat (List.length (filter (fun e => match e with Dial _ true => true | _ => false end) evs)) in
+  let closed := Nat.ltb (consumed c items') (List.length items') in
+  str "R=" ++ dash rs ++ str " C=" ++ dash cs ++ str " D=" ++ dec dials ++ str " H=" ++ hexs (host_bytes evs)
+  ++ str " B=ok X=" ++ b01 closed ++ str " Z=0".
+
+Definition config_obs (r : rawcfg) (e : envc) : bytes :=
+  let ks (k : keysrc) := match k with Configured => str "C" | Fresh => str "F" end in
+  match start r e with
+  | Fatal => str "fatal"
+  | Started k => str "started:" ++ ks (k_paa_enc k) ++ ks (k_paa_sign k) ++ ks (k_user_enc k) ++ ks (k_session k)
+                 ++ ks (k_session_enc k)
+  end.
